@@ -68,7 +68,7 @@ def _scenario(draw, tier):
         if draw(st.booleans()):
             stalls[str(draw(st.integers(1, 200)))] = draw(st.sampled_from([5.0, 50.0]))
         return dict(mode=mode, cfg=cfg, cost=cost, budget_s=cost * budget_evals, unit=unit,
-                    pre_steps=draw(st.sampled_from([0, 0, 3])), jumps=sorted(jumps), stalls=stalls,
+                    pre_steps=draw(st.sampled_from([0, 0, 3, 150])), jumps=sorted(jumps), stalls=stalls,
                     repeat=draw(st.sampled_from([1, 1, 2])))
     if mode == "pt_advance":
         n = draw(st.sampled_from([1, 2, 3]))
